@@ -138,6 +138,27 @@ func ntsOpenRaw(p []byte, key []byte) ([]byte, bool) {
 	return nil, false
 }
 
+// ntsReseal builds an NTS response the way a holder of the session key can: the given NTP
+// header and unique identifier, and plaintext pt (the encrypted extension fields) sealed
+// under key with everything before the authenticator as associated data.
+func ntsReseal(hdr, uid, pt, key []byte) []byte {
+	mut := append([]byte(nil), hdr[:48]...)
+	mut = append(mut, 0x01, 0x04, byte((4+len(uid))>>8), byte(4+len(uid)))
+	mut = append(mut, uid...)
+	nonce := make([]byte, 16)
+	for i := range nonce {
+		nonce[i] = byte(0x30 + i)
+	}
+	ct := sealSIV(key, nonce, pt, mut)
+	ctPad := (len(ct) + 3) &^ 3
+	flen := 4 + 4 + 16 + ctPad
+	mut = append(mut, 0x04, 0x04, byte(flen>>8), byte(flen), 0, 16, byte(len(ct)>>8), byte(len(ct)))
+	mut = append(mut, nonce...)
+	mut = append(mut, ct...)
+	mut = append(mut, make([]byte, ctPad-len(ct))...)
+	return mut
+}
+
 func uidOf(p []byte) []byte {
 	for _, f := range ntsWalk(p) {
 		if f.typ == 0x0104 {
